@@ -76,7 +76,11 @@ def s_chain(draw, min_len=1, max_len=6, worm='maybe', locking=None, optional_dat
             options += ['gear', 'gear']
         elif pt in ('worm', 'wheel'):
             options += ['worm', 'worm', 'worm']
-        if pt == 'worm' and (i >= n - 1):
+        if pt == 'worm' and prev['link']['kind'] == 'worm':
+            # a worm driven by its wheel passes the motion on through its shaft (a second mating of the same worm would
+            # re-decide its single self-locking flag: which declaration counts is not specified)
+            options = ['joint']
+        elif pt == 'worm' and (i >= n - 1):
             options = ['worm']            # a worm gear cannot carry the load: close with its wheel
         kind = draw(st.sampled_from(options))
         J = s_qty(draw, 'InertiaMoment', s_mag(-8, -3))
@@ -105,6 +109,15 @@ def s_chain(draw, min_len=1, max_len=6, worm='maybe', locking=None, optional_dat
                 f = crit * draw(st.floats(0.01, 0.9))      # a wheel can only drive a non-self-locking worm
             el = {'J': J, 'link': {'kind': 'worm', 'f': f}, 'helix': _requal(prev['helix'], 'Angle', draw, requal),
                   'pressure': list(prev['pressure'])}
+            if not worm_master and locking is not False and requal and draw(st.integers(0, 1)) == 0:
+                # ... unless the worm's own helix is smaller than the wheel's (the API accepts it): the efficiency
+                # follows the wheel's helix, the self-locking criterion the worm's
+                bw = beta * draw(st.floats(0.05, 0.5))
+                el['helix'] = qty('Angle', bw, draw(s_unit('Angle')))
+                el['link']['f'] = min(1.0, max(math.cos(alpha) * math.tan(bw) * 1.5, crit * 0.3))
+                if not (el['link']['f'] < crit * 0.95 and el['link']['f'] > math.cos(alpha) * math.tan(bw) * 1.01):
+                    el['helix'] = _requal(prev['helix'], 'Angle', draw, requal)
+                    el['link']['f'] = f
             if draw(st.integers(0, 4)) == 0:
                 # the same pair was declared before with other friction coefficients (either side of the criterion)
                 el['link']['f_prev'] = draw(st.lists(st.sampled_from([0.01, 0.05, 0.3, 0.6, 0.9, 1.0]), min_size=1,
@@ -252,6 +265,8 @@ def s_case(draw, max_len=6, worm='maybe', locking=None, histories=('run', 'run+c
     mdl = M.Model(case)
     case['load'] = s_load(draw, mdl, load_kinds)
     case['init'] = s_init(draw, mdl)
+    if draw(st.integers(0, 3)) == 0:
+        case['decoy'] = True
     h = draw(st.sampled_from(list(histories)))
     run1 = s_run(draw, mdl, max_steps=max_steps, nonmultiple=nonmultiple)
     if h == 'run':
